@@ -818,6 +818,243 @@ def c18(tier, seed):
 
 
 # ---------------------------------------------------------------------------------------------
+# C12: F-odd documents, TraceC12.tla
+# ---------------------------------------------------------------------------------------------
+ERRX = "nope_undefined.q"
+
+
+def odd_docs(dm):
+    """-> list of (name, xml, {event: kind}, init_kind)"""
+    hdr = '<scxml xmlns="http://www.w3.org/2005/07/scxml" version="1.0" datamodel="%s"%s>'
+    dmdecl = '<datamodel><data id="x" expr="0"/><data id="loc" expr="0"/></datamodel>'
+    probe = '<transition event="probe"><script>mark(\'alive\')</script></transition>'
+    docs = []
+
+    def doc(name, cases, extra_states="", init_kind=None, attrs="", data=dmdecl, pre=""):
+        ts = []
+        kinds = {}
+        for i, (kind, body) in enumerate(cases):
+            ev = "o%d" % (i + 1)
+            kinds[ev] = kind
+            ts.append('<transition event="%s">%s</transition>' % (ev, body) if not body.startswith("<transition")
+                      else body.replace("EVENT", ev))
+        xml = (hdr % (dm, attrs)) + data + pre + '<state id="s">' + probe + "".join(ts) + "</state>" + extra_states + "</scxml>"
+        docs.append((name + ":" + dm, xml, kinds, init_kind))
+
+    E = quote_attr(ERRX)
+    sends = [
+        ("ok", '<send event="x" target="#_internal"/>'),
+        ("ok", '<send event="x"/>'),
+        ("expr", '<send eventexpr=%s target="#_internal"/>' % E),
+        ("expr", '<send event="x" targetexpr=%s/>' % E),
+        ("expr", '<send event="x" typeexpr=%s/>' % E),
+        ("expr", '<send event="x" delayexpr=%s/>' % E),
+        ("expr", '<send event="x" namelist="nope_undefined"/>'),
+        ("expr", '<send event="x" target="#_internal"><param name="p" expr=%s/></send>' % E),
+        ("expr", '<send event="x" target="#_internal"><param name="p" location=%s/></send>' % E),
+        ("expr", '<send event="x" target="#_internal"><content expr=%s/></send>' % E),
+        ("badtype", '<send event="x" type="x-unsupported-io-processor"/>'),
+        ("badtype", '<send event="x" type="http://www.w3.org/TR/scxml/#NoSuchProcessor" delay="10ms"/>'),
+        ("badtarget", '<send event="x" target="!!not a target"/>'),
+        ("badtarget", '<send event="x" target="bogus://nowhere"/>'),
+        ("nosession", '<send event="x" target="#_scxml_99999"/>'),
+        ("nosession", '<send event="x" target="#_scxml_abc"/>'),
+        ("nosession", '<send event="x" target="#_scxml_"/>'),
+        ("noparent", '<send event="x" target="#_parent"/>'),
+        ("noinvokeid", '<send event="x" target="#_nosuchinvoke"/>'),
+        ("noinvokeid", '<send event="x" target="#_"/>'),
+        ("baddelay", '<send event="x" delayexpr="\'-5s\'"/>'),
+        ("baddelay", '<send event="x" delayexpr="\'soon\'"/>'),
+        ("delay-internal", '<send event="x" target="#_internal" delay="1s"/>'),
+        ("ok", '<send event="x" delay="5ms" id="d1"/><cancel sendid="d1"/>'),
+        ("ok", '<cancel sendid="never-sent"/>'),
+        ("expr", '<cancel sendidexpr=%s/>' % E),
+        ("ok", '<send event="x" idlocation="loc" target="#_internal"/>'),
+    ]
+    doc("send-odd", sends)
+    content = [
+        ("expr", '<assign location=%s expr="1"/>' % E),
+        ("expr", '<assign location="x" expr=%s/>' % E),
+        ("expr", '<assign location="undeclared_var" expr="1"/>'),
+        ("expr", "<log expr=%s/>" % E),
+        ("expr", "<script>%s</script>" % ERRX),
+        ("expr", "<if cond=%s><raise event=\"a\"/><else/><raise event=\"b\"/></if>" % E),
+        ("expr", "<foreach array=%s item=\"it\"><raise event=\"a\"/></foreach>" % E),
+        ("expr", '<foreach array="5" item="it"><raise event="a"/></foreach>'),
+        ("ok", '<raise event="error.execution"/>'),
+        ("cond", '<transition event="EVENT" cond=%s target="s"/>' % E),
+        ("ok", '<log expr="1"/><script>mark(\'x\', x)</script>'),
+    ]
+    doc("content-odd", content)
+    doc("data-odd", [("ok", '<raise event="a"/>')], init_kind="data",
+        data='<datamodel><data id="x" expr="0"/><data id="bad" expr=%s/><data id="loc" expr="0"/></datamodel>' % E)
+    doc("donedata-odd", [("donedata", '<transition event="EVENT" target="c"/>')],
+        extra_states='<state id="c"><transition event="probe"><script>mark(\'alive\')</script></transition>'
+                     '<state id="c1"><transition event="never" target="cf"/></state>'
+                     '<final id="cf"><donedata><param name="p" expr=%s/></donedata></final><initial><transition target="cf"/></initial></state>' % E)
+    child = ('&lt;scxml xmlns="http://www.w3.org/2005/07/scxml" version="1.0" datamodel="%s"&gt;&lt;state id="k"/&gt;&lt;/scxml&gt;' % dm)
+    invokes = [
+        ("invoke-expr", '<invoke typeexpr=%s><content>%s</content></invoke>' % (E, child)),
+        ("invoke-expr", '<invoke type="scxml" srcexpr=%s/>' % E),
+        ("invoke-fail", '<invoke type="x-unknown-service"><content>%s</content></invoke>' % child),
+        ("invoke-fail", '<invoke type="scxml" src="no_such_file_anywhere.scxml"/>'),
+        ("invoke-fail", '<invoke type="scxml"><content>this is not xml at all &lt;&lt;</content></invoke>'),
+        ("invoke-fail", '<invoke type="scxml"><content>&lt;scxml&gt;&lt;state id="a"&gt;&lt;/scxml&gt;</content></invoke>'),
+        ("invoke-fail", '<invoke type="scxml"><content>&lt;scxml datamodel="nosuchmodel"&gt;&lt;state id="a"/&gt;&lt;/scxml&gt;</content></invoke>'),
+        ("invoke-expr", '<invoke type="scxml"><content expr=%s/></invoke>' % E),
+        ("invoke-expr", '<invoke type="scxml"><param name="p" expr=%s/><content>%s</content></invoke>' % (E, child)),
+        ("invoke-expr", '<invoke type="scxml" namelist="nope_undefined"><content>%s</content></invoke>' % child),
+        ("invoke-fail", '<invoke type="scxml"/>'),
+        ("ok", '<invoke type="scxml" id="kid"><content>%s</content></invoke>' % child),
+    ]
+    for k, (kind, inv) in enumerate(invokes):
+        doc("invoke-odd-%d" % k, [(kind, '<transition event="EVENT" target="v"/>')],
+            extra_states='<state id="v">%s<transition event="probe"><script>mark(\'alive\')</script></transition>'
+                         '<transition event="back" target="s"/></state>' % inv)
+    return docs
+
+
+def quote_attr(v):
+    from xml.sax.saxutils import quoteattr
+    return quoteattr(v)
+
+
+def flat_steps(recs):
+    """light grouping for C12/C13/C15: one step per received event (plus 'init'), with enqueues and marks"""
+    steps = [{"ev": "__init__", "type": "", "enq": [], "marks": [], "evrec": None}]
+    ended = False
+    for r in recs:
+        k = r[0]
+        if k in ("XR", "IR"):
+            steps.append({"ev": r[1]["name"], "type": k, "enq": [], "marks": [], "evrec": r[1]})
+        elif k in ("IQ", "IS"):
+            steps[-1]["enq"].append(r[1])
+        elif k == "M":
+            steps[-1]["marks"].append([tracelib.val_str(r[1])] + [tracelib.val_str(x) for x in r[2]])
+        elif k == "END":
+            ended = True
+    return steps, ended
+
+
+@check("C12")
+def c12(tier, seed):
+    t0 = time.time()
+    wd = vlib.workdir("C12")
+    V = vlib.Verdicts("C12")
+    vlib.build_harness()
+    rng = random.Random(seed)
+    jobs = []
+    meta = {}
+    dms = ["rfsm-expression", "ecmascript"]
+    for dm in dms:
+        for (name, xml, kinds, init_kind) in odd_docs(dm):
+            evs = list(kinds.keys())
+            orders = [evs, list(reversed(evs))] + ([rng.sample(evs, len(evs)) for _ in range(3)] if tier != "quick" else [])
+            for oi, order in enumerate(orders):
+                seq = []
+                for e in order:
+                    seq += [e, "probe"]
+                seq += ["back", "probe"] if "invoke" in name else []
+                jid = len(jobs) + 1
+                job = {"id": jid, "xml": xml, "events": seq, "mode": "step" if oi % 2 else "preload", "timeout_ms": 20000}
+                if dm == "ecmascript":
+                    job["options"] = {"ecma:strict": ""}
+                jobs.append(job)
+                meta[jid] = (name, xml, kinds, init_kind, seq)
+    # documents that are odd as a whole, and reserved event names sent by the host
+    whole = [
+        ("datamodel-unknown", '<scxml xmlns="http://www.w3.org/2005/07/scxml" version="1.0" datamodel="nosuchmodel"><state id="s">'
+                              '<transition event="probe" target="s"/></state></scxml>', {}, None, ["probe"]),
+        ("reserved-events", '<scxml xmlns="http://www.w3.org/2005/07/scxml" version="1.0" datamodel="rfsm-expression"><state id="s">'
+                            '<transition event="probe"><script>mark(\'alive\')</script></transition>'
+                            '<transition event="*"><script>mark(\'any\', _event.name)</script></transition></state></scxml>',
+         {e: "reserved" for e in ["done.invoke.x", "done.invoke.", "error.execution", "error.communication", "trace.methods.on",
+                                   "trace.bogus.on", "trace.states.sideways", "trace.", "done.state.s", "error.platform.cancelled", "", ".", "*"]},
+         None, None),
+    ]
+    for (name, xml, kinds, init_kind, seq) in whole:
+        if seq is None:
+            seq = []
+            for e in kinds:
+                seq += [e, "probe"]
+        jid = len(jobs) + 1
+        jobs.append({"id": jid, "xml": xml, "events": seq, "mode": "preload", "timeout_ms": 20000})
+        meta[jid] = (name, xml, kinds, init_kind, seq)
+    results = vlib.run_harness("run", jobs, wd, threads=8)
+    runs = []
+    for jid, (name, xml, kinds, init_kind, seq) in meta.items():
+        r = results.get(jid, {})
+        if "parse_error" in r:
+            # not accepted by the reader: outside the property (but a reader panic is shown as information)
+            continue
+        recs = [x[:-1] for x in r["sessions"][0]["recs"]] if r.get("sessions") else []
+        steps, ended = flat_steps(recs)
+        if not recs and not r.get("stall") and not r.get("panic"):
+            ended = True       # the document was rejected at start (e.g. unsupported datamodel): the session never ran
+            seq = []
+        out = []
+        for st in steps:
+            kind = init_kind if st["ev"] == "__init__" and init_kind else "probe" if st["ev"] == "probe" and st["type"] == "XR" \
+                else kinds.get(st["ev"], "ok") if st["type"] == "XR" else "ok"
+            out.append({"ev": st["ev"], "kind": kind or "ok", "enq": st["enq"], "alive": any(m[0] == "alive" for m in st["marks"])})
+        child_panics = [p for p in r.get("other_panics", [])]
+        runs.append({"name": name, "steps": out, "panic": bool(r.get("panic")), "stall": bool(r.get("stall")), "ended": ended,
+                     "sent": len(seq), "processed": sum(1 for st in steps if st["type"] == "XR" and st["ev"] != "error.platform.cancel"),
+                     "jid": jid})
+    with open(os.path.join(wd, "traces.ndjson"), "w") as f:
+        for r in runs:
+            f.write(json.dumps(r) + "\n")
+    tv = vlib.run_tlc("TraceC12", "TraceC12.cfg", wd, env={"TRACES": "traces.ndjson"}, timeout=900)
+    acc = len(vlib.tlc_tuples(tv["text"], "ACCEPT"))
+    for t in vlib.tlc_tuples(tv["text"], "REJECT"):
+        v = vlib.parse_tla_value(t)
+        run = runs[v[1] - 1]
+        name, xml, kinds, init_kind, seq = meta[run["jid"]]
+        r = results[run["jid"]]
+        detail = ""
+        if v[2] in ("missing-error", "wedged"):
+            bad = next((st for st in run["steps"] if st["kind"] not in ("ok",) and not _c12_ok(st)), None)
+            detail = "%s/%s" % (bad["kind"], _c12_case(xml, bad["ev"])) if bad else ""
+        elif v[2] == "panic":
+            detail = str(r.get("panic"))[:120]
+        V.report("%s:%s:%s" % (v[2], name, detail), "%s in %s: %s" % (v[2], name, detail),
+                 {"scxml": xml, "events": seq, "class": v[2], "steps": run["steps"], "panic": r.get("panic"), "stall": r.get("stall")})
+    tv["text"] = ""
+    if acc == 0 and not V.violations:
+        raise ToolError("C12: nothing accepted")
+    rc = V.finish()
+    cov = {"evaluations": len(runs), "distinct_nontrivial": sum(1 for r in runs for st in r["steps"] if st["kind"] not in ("ok", "probe")),
+           "rule": "F-odd documents: every failing form of <send> (each expression slot, unsupported type, malformed target, unknown "
+                   "session / parent / invokeid, illegal delay), of other executable content, of data and donedata, 12 failing forms of "
+                   "<invoke>, an unknown datamodel name and reserved event names from the host, for rfsm-expression and ecmascript, "
+                   "in several event orders with a probe event after each; runs are accepted by TraceC12.tla; non-trivial = steps "
+                   "executing a failing operation",
+           "samples": [{"name": r["name"], "steps": r["steps"][:4]} for r in runs[:2]],
+           "states": tv["distinct"], "transitions": tv["states"], "accepted": acc, "exhaustive": False}
+    vlib.write_evidence("C12", tier, seed, "fault_enumeration", cov, time.time() - t0, len(V.violations),
+                        ["a stall is a session thread that has not finished 20 s after the final cancel event was queued"])
+    return rc
+
+
+def _c12_ok(st):
+    need = {"expr": "error.execution", "badtype": "error.execution", "badtarget": "error.execution", "baddelay": "error.execution",
+            "delay-internal": "error.execution", "cond": "error.execution", "data": "error.execution", "donedata": "error.execution",
+            "invoke-expr": "error.execution", "nosession": "error.communication", "noinvokeid": "error.communication"}.get(st["kind"])
+    if st["kind"] == "probe":
+        return st["alive"]
+    return need is None or need in st["enq"]
+
+
+def _c12_case(xml, ev):
+    import re as _re
+    m = _re.search(r'<transition event="%s"[^>]*>(.*?)</transition>' % _re.escape(ev), xml)
+    if m:
+        return m.group(1)[:70]
+    m = _re.search(r'<transition event="%s"[^>]*/>' % _re.escape(ev), xml)
+    return m.group(0)[:70] if m else ev
+
+
+# ---------------------------------------------------------------------------------------------
 # C10 / C11: Expr.tla as generator + oracle, the engine evaluated in `vh expr`
 # ---------------------------------------------------------------------------------------------
 OPERANDS = ["0", "1", "2", "3", "7", "10", "-1", "-4", "2.5", "0.5", "1.0", "-1.5", "'a'", "'b'", "'ab'", "''", "true",
